@@ -363,12 +363,16 @@ if cmdline.as_server is not None:
 # generate reports
 # - ensure UTF-8 encoding for output (not standard with Windows Python)
 #
-out_utf8 = open(sys.stdout.fileno(), mode='w', encoding='utf-8')
+out_utf8 = open(sys.stdout.fileno(), mode='w', encoding='utf-8',
+                                        errors='backslashreplace')
 
 if cmdline.output == 'plain' or cmdline.list_unknown:
     from yalafi.shell import gentext
     gentext.init(vars)
     # do not enforce UTF-8: we might be working in a Windows command console
+    # (but do not stop at a character that cannot be encoded)
+    if hasattr(sys.stdout, 'reconfigure'):
+        sys.stdout.reconfigure(errors='backslashreplace')
     gentext.generate_text_report(proofreader.run_proofreader, sys.stdout)
 elif cmdline.output in ('xml', 'xml-b'):
     from yalafi.shell import genxml
